@@ -873,6 +873,13 @@ where
                         return None;
                     }
                     Err(e) => {
+                        // A budget breach concerns the document it was raised in (enforcement is
+                        // per document here): report it and go on with the next document.
+                        if matches!(e.without_snippet(), Error::Budget { .. })
+                            && self.src.skip_to_next_document()
+                        {
+                            return Some(Err(e));
+                        }
                         self.finished = true;
                         let _ = self.src.finish();
                         return Some(Err(e));
@@ -1256,6 +1263,13 @@ where
                         return None;
                     }
                     Err(e) => {
+                        // A budget breach concerns the document it was raised in (enforcement is
+                        // per document here): report it and go on with the next document.
+                        if matches!(e.without_snippet(), Error::Budget { .. })
+                            && self.src.skip_to_next_document()
+                        {
+                            return Some(Err(e));
+                        }
                         self.finished = true;
                         let _ = self.src.finish();
                         return Some(Err(e));
@@ -1973,6 +1987,13 @@ where
                         return None;
                     }
                     Err(e) => {
+                        // A budget breach concerns the document it was raised in (enforcement is
+                        // per document here): report it and go on with the next document.
+                        if matches!(e.without_snippet(), Error::Budget { .. })
+                            && self.src.skip_to_next_document()
+                        {
+                            return Some(Err(e));
+                        }
                         self.finished = true;
                         let _ = self.src.finish();
                         return Some(Err(e));
